@@ -660,6 +660,9 @@ def check(tier):
                     docs = [trim]
                 elif c["files"] in ("zoo", "zoo_ascii_locale"):
                     docs = [zoo]
+                elif c["files"] == "zoo_twice":
+                    # every key a merge could identify declarations by (name, typeName, method, absent typeName) collides
+                    docs = [zoo, zoo]
                 elif c["files"] in ("two", "three"):
                     n = 2 if c["files"] == "two" else 3
                     docs = []
